@@ -42,7 +42,7 @@ def _read_msg(fd):
 
 
 class Zygote:
-    def __init__(self, evaluator, timeout_s=60):
+    def __init__(self, evaluator, timeout_s=300):
         """evaluator(probe) -> result; runs in a grandchild forked from the pristine zygote."""
         self.evaluator = evaluator
         self.timeout_s = timeout_s
@@ -105,7 +105,9 @@ class Zygote:
 
     # -- worker side ---------------------------------------------------------------
     def ask(self, key, probe):
-        if key in self.memo:
+        """Evaluate `probe` in a fresh grandchild of the pristine zygote (memoised by `key`
+        unless key is None)."""
+        if key is not None and key in self.memo:
             self.hits += 1
             return self.memo[key]
         import time
@@ -117,6 +119,8 @@ class Zygote:
         if kind != "result":
             raise RuntimeError("pristine fork: " + str(val))
         self.forks += 1
+        if key is None:
+            return val
         if len(self.memo) > 20000:
             self.memo.clear()
         self.memo[key] = val
@@ -162,6 +166,94 @@ def run_in_fork(fn, *args, timeout_s=600):
     if kind != "result":
         raise RuntimeError("run_in_fork: " + str(val))
     return val
+
+
+class Companion:
+    """A long-lived second process per worker that evaluates, without forking, the *order
+    variation* of every history its worker runs: the same probes, alone and in another order,
+    in a process whose own history is different from the worker's (it only ever evaluated the
+    variations of the worker's earlier histories).  History independence demands that a probe
+    gives the same outcome in ANY two histories, so a difference between worker and companion
+    is a violation whichever of the two is "right".  The companion is forked from the worker
+    before the worker's first run, is driven strictly sequentially by it, and is therefore as
+    deterministic as the worker; replaying a worker's runs in a fresh process with a fresh
+    companion reproduces both histories.  (Forks are serialised system-wide in this sandbox and
+    code runs 2-3x slower in a forked child, so one fork per history was the bottleneck.)"""
+
+    def __init__(self, evaluator):
+        self.evaluator = evaluator
+        req_r, req_w = os.pipe()
+        res_r, res_w = os.pipe()
+        pid = os.fork()
+        if pid == 0:
+            os.close(req_w)
+            os.close(res_r)
+            try:
+                signal.signal(signal.SIGINT, signal.SIG_IGN)
+                while True:
+                    try:
+                        probe = _read_msg(req_r)
+                    except EOFError:
+                        break
+                    try:
+                        out = ("result", evaluator(probe))
+                    except BaseException as e:  # noqa: BLE001
+                        import traceback
+                        out = ("harness-error", "".join(traceback.format_exception(e))[-3000:])
+                    _write_msg(res_w, out)
+            finally:
+                os._exit(0)
+        os.close(req_r)
+        os.close(res_w)
+        self.pid = pid
+        self.owner = os.getpid()
+        self.req_w = req_w
+        self.res_r = res_r
+        self.asked = 0
+
+    def ask(self, probe):
+        _write_msg(self.req_w, probe)
+        try:
+            kind, val = _read_msg(self.res_r)
+        except EOFError:
+            raise RuntimeError("companion process died") from None
+        if kind != "result":
+            raise RuntimeError("companion: " + str(val))
+        self.asked += 1
+        return val
+
+    def close(self):
+        try:
+            os.close(self.req_w)
+            os.close(self.res_r)
+            os.waitpid(self.pid, 0)
+        except OSError:
+            pass
+
+
+_COMPANION = None
+
+
+def init_companion(evaluator):
+    """(Re)create this process's companion; call while this process is still history-free."""
+    global _COMPANION
+    if _COMPANION is not None and _COMPANION.owner == os.getpid():
+        _COMPANION.close()
+    elif _COMPANION is not None:
+        # inherited from the parent: just drop our copies of its pipe ends
+        for fd in (_COMPANION.req_w, _COMPANION.res_r):
+            try:
+                os.close(fd)
+            except OSError:
+                pass
+    _COMPANION = Companion(evaluator)
+    return _COMPANION
+
+
+def companion():
+    if _COMPANION is None or _COMPANION.owner != os.getpid():
+        raise RuntimeError("companion process was not initialised in this process before its first run")
+    return _COMPANION
 
 
 _ZYGOTE = None
